@@ -561,6 +561,8 @@ def r_calls(ctx, toks):
                 new = []
                 changed = False
                 for a, (pty, pname, pref) in zip(args, params):
+                    if pref and [x.t for x in a] == ['(', '*', 'self', ')']:
+                        a = [Tok('id', 'self', a[0].ws)]; changed = True; fire(ctx, 'arg-self')
                     if pref and len(a) == 1 and a[0].k == 'id' and a[0].t in ctx.env and not ctx.env[a[0].t][1]:
                         a = [P('&', a[0].ws), Tok('id', a[0].t, '')]; changed = True; fire(ctx, 'arg-addr')
                     new.append(a)
@@ -640,3 +642,166 @@ def residual_scan(text, allow=()):
 
 def sha(s):
     return hashlib.sha256(s.encode()).hexdigest()[:16]
+
+# ----------------------------------------------------------------------------------------------
+# class-typed values: operators and method calls become named C functions
+
+OPNAMES = {'==': 'eq', '!=': 'ne', '<': 'lt', '>': 'gt', '<=': 'le', '>=': 'ge', '+': 'plus', '-': 'minus',
+           '+=': 'iadd', '-=': 'isub', '[]': 'index', '*': 'times', '/': 'divide', '*=': 'imul', '/=': 'idiv', '!': 'not', 'bool': 'bool'}
+
+def class_of(ctx, name):
+    """C struct type of a class-typed identifier, or None"""
+    if name in ctx.env and ctx.env[name][0] in ctx.unit.get('classes', ()):
+        return ctx.env[name][0]
+    return None
+
+def addr(ctx, name, ws=''):
+    """expression for 'pointer to name'"""
+    if name == 'self' or (name in ctx.env and ctx.env[name][1]):
+        return [Tok('id', name, ws)]
+    return [P('&', ws), Tok('id', name, '')]
+
+def r_opcalls(ctx, toks):
+    """X.operator OP (args) / this->operator OP (args) / operator OP (args) [inside a member] -> Cls_op(X, args)"""
+    out = []; i = 0; n = len(toks)
+    cls = ctx.unit.get('cls')
+    while i < n:
+        t = toks[i]
+        obj = None; j = None
+        if t.k == 'id' and class_of(ctx, t.t) and i + 2 < n and toks[i + 1].t in ('.', '->') and toks[i + 2].t == 'operator':
+            obj = addr(ctx, t.t, t.ws); j = i + 3; c = class_of(ctx, t.t)
+        elif t.t == 'this' and i + 2 < n and toks[i + 1].t == '->' and toks[i + 2].t == 'operator':
+            obj = [Tok('id', 'self', t.ws)]; j = i + 3; c = cls
+        elif t.t == 'operator' and cls and (not out or out[-1].t not in ('.', '->')):
+            obj = [Tok('id', 'self', t.ws)]; j = i + 1; c = cls
+        if obj is not None:
+            # operator symbol: one or two tokens up to '('
+            k = j; sym = ''
+            while toks[k].t != '(' or sym == '':
+                sym += toks[k].t; k += 1
+                if sym == '(' and toks[k].t == ')':      # operator()
+                    sym = '()'; k += 1
+            if sym not in OPNAMES:
+                raise ExtractError('unknown operator %s' % sym)
+            e = match_close(toks, k)
+            out.append(Tok('id', '%s_%s' % (c, OPNAMES[sym]), obj[0].ws)); out.append(P('(', ''))
+            obj[0].ws = ''
+            out.extend(obj)
+            if e > k + 1: out.append(P(',', ''))
+            i = k + 1; fire(ctx, 'operator-call'); continue
+        out.append(t); i += 1
+    return out
+
+def operand_before(ctx, out):
+    """if the tail of out is a class-typed operand, return (start index, class, tokens as pointer expr)"""
+    if not out: return None
+    t = out[-1]
+    if t.k == 'id' and class_of(ctx, t.t) and (len(out) < 2 or out[-2].t not in ('.', '->')):
+        return len(out) - 1, class_of(ctx, t.t), addr(ctx, t.t)
+    # ( * self )
+    if len(out) >= 4 and [x.t for x in out[-4:]] == ['(', '*', 'self', ')'] and ctx.unit.get('cls'):
+        return len(out) - 4, ctx.unit['cls'], [Tok('id', 'self', '')]
+    # result of a call returning a class value:  Cls_op ( ... )
+    if t.t == ')':
+        o = match_open(out, len(out) - 1)
+        if o >= 1 and out[o - 1].k == 'id' and out[o - 1].t in ctx.sigs and ctx.sigs[out[o - 1].t]['ret'] in ctx.unit.get('classes', ()):
+            c = ctx.sigs[out[o - 1].t]['ret']
+            return o - 1, c, [Tok('id', 'TMP_' + c, ''), P('(', '')] + out[o - 1:] + [P(')', '')]
+    return None
+
+def operand_after(ctx, toks, i):
+    t = toks[i]
+    if t.k == 'id' and class_of(ctx, t.t) and (i + 1 >= len(toks) or toks[i + 1].t not in ('.', '->', '(', '[')):
+        return i + 1, class_of(ctx, t.t), addr(ctx, t.t)
+    if seq_at(toks, i, ['(', '*', 'self', ')']) or seq_at(toks, i, ['*', 'this']):
+        ln = 4 if toks[i].t == '(' else 2
+        return i + ln, ctx.unit.get('cls'), [Tok('id', 'self', '')]
+    # temporary:  Cls ( { a, b, c } )
+    if t.k == 'id' and t.t in ctx.unit.get('classes', ()) and i + 2 < len(toks) and toks[i + 1].t == '(' and toks[i + 2].t == '{':
+        e = match_close(toks, i + 1)
+        inner = toks[i + 3:e - 1]
+        return e + 1, t.t, [Tok('id', 'TMP_' + t.t, ''), P('(', ''), Tok('id', 'mk_%s_list' % t.t, ''), P('(', '')] + inner + [P(')', ''), P(')', '')]
+    return None
+
+BINOPS = ['==', '!=', '<=', '>=', '<', '>', '+', '-', '+=', '-=']
+
+def r_class_ops(ctx, toks):
+    """binary operators between class-typed operands -> Cls_op(&a, &b); a[i] -> Cls_index(&a, i); !a / if (a) -> Cls_bool"""
+    if not ctx.unit.get('classes'):
+        return toks
+    # pass 1: arithmetic (+,-) first, then comparisons, so that 'a + b > c' nests correctly
+    for group in (['+', '-'], ['==', '!=', '<=', '>=', '<', '>'], ['+=', '-=']):
+        out = []; i = 0; n = len(toks)
+        while i < n:
+            t = toks[i]
+            if t.k == 'punct' and t.t in group and out:
+                lhs = operand_before(ctx, out)
+                rhs = operand_after(ctx, toks, i + 1) if i + 1 < n else None
+                if lhs and rhs and lhs[1] == rhs[1]:
+                    s, c, lt = lhs
+                    e, _, rt = rhs
+                    ws = out[s].ws
+                    del out[s:]
+                    out.append(Tok('id', '%s_%s' % (c, OPNAMES[t.t]), ws)); out.append(P('(', ''))
+                    out.extend(lt); out.append(P(',', '')); out.extend(rt); out.append(P(')', ''))
+                    i = e; fire(ctx, 'class-op:' + t.t); continue
+                # class OP scalar (e.g. NDSize -= 1)
+                if lhs and t.t in ('+=', '-=', '+', '-') and i + 1 < n and not rhs:
+                    s, c, lt = lhs
+                    # scalar operand: tokens up to ';' or ')' at depth 0
+                    k = i + 1; d = 0
+                    while k < n and not (d == 0 and toks[k].t in (';', ')', ',')):
+                        if toks[k].t in '([': d += 1
+                        elif toks[k].t in ')]': d -= 1
+                        k += 1
+                    ws = out[s].ws
+                    del out[s:]
+                    out.append(Tok('id', '%s_%s_scalar' % (c, OPNAMES[t.t]), ws)); out.append(P('(', ''))
+                    out.extend(lt); out.append(P(',', '')); out.extend(toks[i + 1:k]); out.append(P(')', ''))
+                    i = k; fire(ctx, 'class-op-scalar:' + t.t); continue
+            out.append(t); i += 1
+        toks = out
+    # indexing and boolean conversion
+    out = []; i = 0; n = len(toks)
+    while i < n:
+        t = toks[i]
+        prev = out[-1].t if out else ''
+        if t.k == 'id' and class_of(ctx, t.t) and prev not in ('.', '->', '&'):
+            c = class_of(ctx, t.t)
+            if i + 1 < n and toks[i + 1].t == '[':
+                e = match_close(toks, i + 1)
+                idx = r_class_ops(ctx, toks[i + 2:e])
+                # lvalue use:  a[i] = / += ...
+                nxt = toks[e + 1].t if e + 1 < n else ''
+                if nxt in ('=', '+=', '-=', '*=', '/=') :
+                    out.append(P('(', t.ws)); out.append(P('*', '')); out.append(Tok('id', c + '_at', '')); out.append(P('(', ''))
+                    out.extend(addr(ctx, t.t)); out.append(P(',', '')); out.extend(idx); out.append(P(')', '')); out.append(P(')', ''))
+                    ctx.unit.setdefault('_lvalue_index', True)
+                else:
+                    out.append(Tok('id', c + '_index', t.ws)); out.append(P('(', ''))
+                    out.extend(addr(ctx, t.t)); out.append(P(',', '')); out.extend(idx); out.append(P(')', ''))
+                i = e + 1; fire(ctx, 'class-index'); continue
+            nxt = toks[i + 1].t if i + 1 < n else ''
+            boolctx = prev == '!' or nxt == '?' or (prev == '(' and nxt == ')' and len(out) >= 2 and out[-2].t in ('if', 'while')) \
+                      or prev in ('&&', '||') or nxt in ('&&', '||')
+            if boolctx and (c + '_bool') in ctx.sigs:
+                out.append(Tok('id', c + '_bool', t.ws)); out.append(P('(', '')); out.extend(addr(ctx, t.t)); out.append(P(')', ''))
+                i += 1; fire(ctx, 'class-bool'); continue
+        out.append(t); i += 1
+    return out
+
+def r_methods(ctx, toks):
+    """x.method(args) with x class-typed -> Cls_method(&x, args)"""
+    out = []; i = 0; n = len(toks)
+    while i < n:
+        t = toks[i]
+        if t.k == 'id' and class_of(ctx, t.t) and i + 3 < n and toks[i + 1].t in ('.', '->') and toks[i + 2].k == 'id' and toks[i + 3].t == '(' \
+                and (not out or out[-1].t not in ('.', '->')):
+            c = class_of(ctx, t.t)
+            e = match_close(toks, i + 3)
+            out.append(Tok('id', '%s_%s' % (c, toks[i + 2].t), t.ws)); out.append(P('(', ''))
+            out.extend(addr(ctx, t.t))
+            if e > i + 4: out.append(P(',', ''))
+            i += 4; fire(ctx, 'method-call'); continue
+        out.append(t); i += 1
+    return out
